@@ -678,3 +678,146 @@ Lemma filter_keys_exact : forall p a k,
 Proof.
   intros p a k. rewrite <- memb_in. unfold s_filter. rewrite (memb_keys (sel [p] [])), sel_single. tauto.
 Qed.
+
+(** * bulk rename as a map operation (destinations under a disjoint prefix) *)
+Lemma is_prefix_both : forall p q k, is_prefix p k = true -> is_prefix q k = true ->
+  is_prefix p q = true \/ is_prefix q p = true.
+Proof.
+  induction p as [|c p IH]; intros q k Hp Hq; [now left|].
+  destruct q as [|d q]; [now right|].
+  destruct k as [|e k]; [discriminate|].
+  cbn in Hp, Hq. apply andb_prop in Hp. apply andb_prop in Hq.
+  destruct Hp as [Hc Hp]. destruct Hq as [Hd Hq].
+  apply N.eqb_eq in Hc. apply N.eqb_eq in Hd. subst c d.
+  cbn. rewrite N.eqb_refl. cbn. eauto.
+Qed.
+
+Lemma ssorted_nodup : forall {A} (m : list (name * A)), ssorted m -> NoDup (map fst m).
+Proof.
+  intros A m. induction m as [|[k v] m IH]; cbn; intros H; [constructor|].
+  destruct H as [Hlb Hs]. constructor; [|auto].
+  intros Hin. apply in_map_iff in Hin. destruct Hin as [[k' v'] [E Hin]]. cbn in E. subst k'.
+  unfold lb in Hlb. rewrite Forall_forall in Hlb. specialize (Hlb _ Hin). cbn in Hlb.
+  rewrite bcmp_refl in Hlb. discriminate.
+Qed.
+
+Section BulkRename.
+  Variables op np : bytes.
+  Hypothesis Hd1 : is_prefix op np = false.
+  Hypothesis Hd2 : is_prefix np op = false.
+
+  Definition img (k : name) : name := np ++ skipn (length op) k.
+
+  Lemma img_not_src : forall k k', is_prefix op k = true -> img k' <> k.
+  Proof.
+    intros k k' Hk E. unfold img in E.
+    destruct (is_prefix_both op np k Hk) as [H|H]; [|congruence|congruence].
+    rewrite <- E. apply is_prefix_app.
+  Qed.
+
+  Lemma img_inj : forall k k', is_prefix op k = true -> is_prefix op k' = true -> img k = img k' -> k = k'.
+  Proof.
+    intros k k' Hk Hk' E. unfold img in E. apply app_inv_head in E.
+    rewrite (is_prefix_split op k Hk), (is_prefix_split op k' Hk'). now rewrite E.
+  Qed.
+
+  Lemma rename_step_gets : forall a x y v,
+    sstep a (PRename x y) =
+      (mk_sstate (m_del x (m_set y v (refs a))) (fupd (fupd (logs a) y (logs a x)) x []), ROk) ->
+    m_get x (refs a) = Some v ->
+    forall k, (m_get k (refs (fst (sstep a (PRename x y)))) =
+                 if beqb x k then None else if beqb y k then m_get x (refs a) else m_get k (refs a)) /\
+              (logs (fst (sstep a (PRename x y))) k =
+                 if beqb x k then [] else if beqb y k then logs a x else logs a k).
+  Proof.
+    intros a x y v E Hx k. rewrite E. cbn [fst refs logs].
+    rewrite m_get_del, m_get_set, !fupd_eq, Hx. split; reflexivity.
+  Qed.
+
+  Lemma s_rename_each_exact : forall ks a,
+    Forall (fun k => is_prefix op k = true) ks -> NoDup ks ->
+    (forall k, In k ks -> m_get k (refs a) <> None) ->
+    snd (s_rename_each (length op) np ks a) = ROk ->
+    let a' := fst (s_rename_each (length op) np ks a) in
+    (forall k, In k ks ->
+       m_get k (refs a') = None /\ logs a' k = [] /\
+       m_get (img k) (refs a') = m_get k (refs a) /\ logs a' (img k) = logs a k) /\
+    (forall k, ~ In k ks -> (forall k0, In k0 ks -> k <> img k0) ->
+       m_get k (refs a') = m_get k (refs a) /\ logs a' k = logs a k).
+  Proof.
+    induction ks as [|k0 ks IH]; intros a Hpre Hnd Hex Hok a'.
+    - split; [intros k []|]. intros k _ _. now split.
+    - inversion Hpre as [|? ? Hk0 Hpre']; subst. inversion Hnd as [|? ? Hnin Hnd']; subst.
+      unfold a' in *. clear a'. rewrite s_rename_each_step in *.
+      fold (img k0) in *.
+      destruct (sstep_rename_cases a k0 (img k0)) as [[v [Hx [Hy E]]]|[Hf E]].
+      2:{ rewrite E in Hok. cbn in Hok. discriminate. }
+      pose proof (rename_step_gets a k0 (img k0) v E Hx) as G.
+      rewrite E in *. cbn [fst] in G.
+      set (a1 := mk_sstate (m_del k0 (m_set (img k0) v (refs a)))
+                           (fupd (fupd (logs a) (img k0) (logs a k0)) k0 [])) in *.
+      assert (Hsame : forall k, k <> k0 -> k <> img k0 ->
+                m_get k (refs a1) = m_get k (refs a) /\ logs a1 k = logs a k).
+      { intros k N1 N2. destruct (G k) as [G1 G2].
+        assert (beqb k0 k = false) as B1 by (apply beqb_false; congruence).
+        assert (beqb (img k0) k = false) as B2 by (apply beqb_false; congruence).
+        rewrite B1, B2 in G1, G2. now split. }
+      assert (Hex1 : forall k, In k ks -> m_get k (refs a1) <> None).
+      { intros k Hin. rewrite Forall_forall in Hpre'.
+        destruct (Hsame k) as [-> _]; [congruence|apply not_eq_sym, img_not_src, Hpre', Hin|].
+        apply Hex. now right. }
+      destruct (IH a1 Hpre' Hnd' Hex1 Hok) as [I1 I2]. clear IH.
+      rewrite Forall_forall in Hpre'.
+      split.
+      + intros k [<-|Hin].
+        * (* the head *)
+          assert (N0 : forall k1, In k1 ks -> k0 <> img k1) by (intros k1 _; apply not_eq_sym, img_not_src, Hk0).
+          destruct (I2 k0 Hnin N0) as [J1 J2].
+          assert (Ni : ~ In (img k0) ks).
+          { intros Hin. exact (img_not_src (img k0) k0 (Hpre' _ Hin) eq_refl). }
+          assert (Nj : forall k1, In k1 ks -> img k0 <> img k1).
+          { intros k1 Hin Eq. apply img_inj in Eq; auto. congruence. }
+          destruct (I2 (img k0) Ni Nj) as [J3 J4].
+          destruct (G k0) as [G1 G2]. destruct (G (img k0)) as [G3 G4].
+          rewrite beqb_refl in G1, G2.
+          assert (beqb k0 (img k0) = false) as B by (apply beqb_false, not_eq_sym, img_not_src, Hk0).
+          rewrite B, beqb_refl in G3, G4.
+          repeat split; congruence.
+        * destruct (I1 k Hin) as [J1 [J2 [J3 J4]]].
+          destruct (Hsame k) as [S1 S2]; [congruence|apply not_eq_sym, img_not_src, Hpre', Hin|].
+          repeat split; congruence.
+      + intros k Hnin' Hnimg.
+        assert (k <> k0) by (intros ->; apply Hnin'; now left).
+        assert (k <> img k0) by (apply Hnimg; now left).
+        destruct (I2 k) as [J1 J2].
+        * intros Hin. apply Hnin'. now right.
+        * intros k1 Hin. apply Hnimg. now right.
+        * destruct (Hsame k) as [S1 S2]; auto. split; congruence.
+  Qed.
+
+  Lemma s_rename_each_ok : forall ks a,
+    Forall (fun k => is_prefix op k = true) ks -> NoDup ks ->
+    (forall k, In k ks -> m_get k (refs a) <> None) ->
+    (forall k, In k ks -> m_get (img k) (refs a) = None) ->
+    snd (s_rename_each (length op) np ks a) = ROk.
+  Proof.
+    induction ks as [|k0 ks IH]; intros a Hpre Hnd Hex Hfree; [reflexivity|].
+    inversion Hpre as [|? ? Hk0 Hpre']; subst. inversion Hnd as [|? ? Hnin Hnd']; subst.
+    rewrite s_rename_each_step. fold (img k0).
+    destruct (sstep_rename_cases a k0 (img k0)) as [[v [Hx [Hy E]]]|[[Hf|Hf] E]].
+    - pose proof (rename_step_gets a k0 (img k0) v E Hx) as G. rewrite E in *. cbn [fst] in G.
+      pose proof Hpre' as HF. rewrite Forall_forall in HF.
+      apply IH; [exact Hpre'|exact Hnd'| |].
+      + intros k Hin. destruct (G k) as [-> _].
+        assert (beqb k0 k = false) as -> by (apply beqb_false; congruence).
+        assert (beqb (img k0) k = false) as -> by (apply beqb_false, img_not_src, HF, Hin).
+        apply Hex. now right.
+      + intros k Hin. destruct (G (img k)) as [-> _].
+        assert (beqb k0 (img k) = false) as -> by (apply beqb_false, not_eq_sym, img_not_src, Hk0).
+        assert (beqb (img k0) (img k) = false) as ->.
+        { apply beqb_false. intros Eq. apply img_inj in Eq; auto. congruence. }
+        apply Hfree. now right.
+    - exfalso. apply (Hex k0); [now left|exact Hf].
+    - exfalso. apply Hf, Hfree. now left.
+  Qed.
+End BulkRename.
